@@ -784,7 +784,7 @@ func c17Dedup(kvs []string) []string {
 }
 
 func c17Gen(r *Rng, tier string, emit func(string)) {
-	n := 1500
+	n := 4000
 	if tier == "thorough" {
 		n = 30000
 	}
